@@ -96,6 +96,8 @@ def guarded_use_rule(m, rid):
 # a matcher indexes its own text parameter only after an emptiness test (list engines hand empty entries on)
 # =================================================================================================
 INDEX_EXCEPTIONS = {
+    "Format_Item.match|my_string": "my_string is the stripped text itself, or its tail from the first character that skip_digits() found "
+                                   "to be neither digit nor blank (2003); the tail after '*' of stripped text longer than one character (2008)",
     "Char_Selector.match": "constructed only by WORDClsBase.match for the non-empty remainder after CHARACTER (C01.R9 table)",
     "Length_Selector.match": "alternative of Char_Selector only: receives the same non-empty text",
     "Data_Edit_Desc.match": "constructed only by Format_Item.match from text it has indexed itself",
@@ -134,19 +136,29 @@ def nonempty_fact(t, pol, T):
 
 def param_index_rule(m, rid, exceptions=None):
     from rules import delim_rules as D
-    r = RuleResult(rid, "a matcher indexes its text parameter (`string[0]`, `string[-1]`) only on paths that established the text is not empty "
-                        "(the list engine passes empty entries on to the element class)")
-    r.floor = 10
+    r = RuleResult(rid, "a matcher indexes its text parameter or a piece cut from it (`string[0]`, `line[-1]`) only on paths that established "
+                        "the text is not empty (the list engine passes empty entries on; a piece after a keyword may be empty)")
+    r.floor = 70
     exceptions = INDEX_EXCEPTIONS if exceptions is None else exceptions
     used = set()
     for (path, q), f in sorted(m.funcs.items()):
         if "/tests/" in path or "/two/" not in path or not q.endswith(".match"):
             continue
         params = set(A.param_names(f.node))
+        # text-valued locals: assigned from a slice / strip / repmap of text, never from a split (a list)
+        texts = set()
+        for n in A.body_nodes(f.node):
+            if isinstance(n, ast.Assign) and is_text_def(n.value):
+                texts |= {t.id for t in n.targets if isinstance(t, ast.Name)}
+        for n in A.body_nodes(f.node):
+            if isinstance(n, ast.Assign) and isinstance(n.value, ast.Call) and isinstance(n.value.func, ast.Attribute) \
+                    and n.value.func.attr in ("split", "rsplit", "findall", "groups"):
+                texts -= {t.id for t in n.targets if isinstance(t, ast.Name)}
+        subjects = params | texts
         P = None
         bad = None
         for n in A.body_nodes(f.node):
-            if not (isinstance(n, ast.Subscript) and isinstance(n.ctx, ast.Load) and isinstance(n.value, ast.Name) and n.value.id in params
+            if not (isinstance(n, ast.Subscript) and isinstance(n.ctx, ast.Load) and isinstance(n.value, ast.Name) and n.value.id in subjects
                     and not isinstance(n.slice, ast.Slice)):
                 continue
             k = A.const(n.slice, None)
@@ -159,16 +171,18 @@ def param_index_rule(m, rid, exceptions=None):
             r.instances += 1
             T = n.value.id
             proven = any(nonempty_fact(t, pol, T) for t, pol in D.facts_at(f.node, n, P))
-            if not proven and q in exceptions:
-                used.add(q)
-                r.ob(True, "%s: `%s` -- %s" % (q, A.text(n), exceptions[q]))
+            ek = q if q in exceptions else "%s|%s" % (q, T)
+            if not proven and ek in exceptions:
+                used.add(ek)
+                r.ob(True, "%s: `%s` -- %s" % (q, A.text(n), exceptions[ek]))
                 continue
             r.ob(proven, "%s: `%s` after an emptiness test" % (q, A.text(n)) if r.instances % 4 == 0 else None)
             if not proven and bad is None:
                 bad = n
         if bad is not None:
-            r.fail("%s|index-on-empty|%s" % (q, A.text(bad)), "%s evaluates `%s` without having established that `%s` is not empty: for an empty list "
-                   "entry (`(/ 1, /)`) this is an IndexError that escapes the parser" % (q, A.text(bad), bad.value.id), m.loc(f, bad))
+            r.fail("%s|index-on-empty|%s" % (q, A.text(bad)), "%s evaluates `%s` without having established that `%s` is not empty: when that text is empty "
+                   "(an empty list entry as in `(/ 1, /)`, nothing after a keyword as in `format(e)`) this is an IndexError that escapes "
+                   "the parser" % (q, A.text(bad), bad.value.id), m.loc(f, bad))
     stale = sorted(set(exceptions) - used)
     if stale:
         r.notes.append("exceptions no longer needed: %s" % stale)
